@@ -145,6 +145,28 @@ def escape_check(oc, pid='C12'):
             if bad:
                 oc.failing.append({'kind': 'sources-escape', 'data_hex': data.hex(), 'label': f'{name} encoded as {enc}{"+BOM" if bom else ""}',
                                    'spec': 'classifying a well-formed XML document escaped with a built-in exception', 'impl': bad})
+    # ... and as the documents of a collection (which classifies them to index them and again to restore them): documents in
+    # an XML namespace, prefixed message elements, envelopes with another root name - built and merged non-strictly
+    nsd = lambda t: t.replace('<mos>', '<mos xmlns="urn:example:mos">', 1)
+    ro_t = TJ.to_text(B.ro_doc([B.story('A', [B.item('a1')])], message_id='1'))
+    ap_t = TJ.to_text(B.story_append([B.story('N', [])], message_id='2'))
+    mv_t = TJ.to_text(B.ea('MOVE', B.ABSENT, [B.ids('storyID', ['A', 'nowhere'])], message_id='3'))
+    rd_t = TJ.to_text(B.ro_delete(message_id='4'))
+    sets = {'all documents in a default namespace': [nsd(ro_t), nsd(ap_t), nsd(mv_t), nsd(rd_t)],
+            'messages in a default namespace': [ro_t, nsd(ap_t), nsd(mv_t), rd_t],
+            'prefixed envelope': [t.replace('<mos>', '<m:mos xmlns:m="urn:example:mos">', 1).replace('</mos>', '</m:mos>') for t in (ro_t, ap_t, rd_t)],
+            'root named MOS': [t.replace('<mos>', '<MOS>', 1).replace('</mos>', '</MOS>') for t in (ro_t, ap_t, rd_t)],
+            'plain': [ro_t, ap_t, mv_t, rd_t]}
+    for name, docs in sets.items():
+        for via in ('strings', 'files', 's3'):
+            o = coll_family.impl_collection(docs, True, False, via=via)
+            oc.evaluations += 1
+            oc.in_domain += 1
+            oc.count('classification-in-collections')
+            errs = [e for e in (o['err'], (o['run'] or {}).get('err')) if e and str(e).startswith('crash:')]
+            if errs:
+                oc.failing.append({'kind': 'collection-sources', 'docs': docs, 'label': f'{name}, collection from {via}', 'escape': True,
+                                   'spec': 'building and non-strictly merging a collection of well-formed documents escaped with a built-in exception', 'impl': errs})
 
 
 def detect_completed_check(oc, pid='C07'):
@@ -160,6 +182,18 @@ def detect_completed_check(oc, pid='C07'):
             if done:
                 ro += impl.load(TJ.to_text(B.ro_delete(message_id='3')))
             docs[f'{n}-{"completed" if done else "open"}.mos.xml'] = (str(ro), bool(ro.completed))
+    for to_file in (True, False):
+        seq = [TJ.to_text(B.ro_doc([B.story('A', [B.item('a1')]), B.story('B', [])], message_id='1')), TJ.to_text(B.story_delete(['B'], message_id='2')),
+               TJ.to_text(B.ro_delete(message_id='3'))]
+        r = cli_merge_tree(seq, to_file)
+        oc.evaluations += 1
+        oc.in_domain += 1
+        oc.count('cli-merge-readback')
+        if r.get('cls') != 'RunningOrder' or r.get('completed') is not True:
+            oc.failing.append({'kind': 'cli-detect-completed', 'cmd': 'merge', 'argv': ['merge', '-f', '...'] + (['-o', 'out.xml'] if to_file else []),
+                               'label': f'merge {"-o over an existing, longer file" if to_file else "to stdout"}, read back',
+                               'spec': 'the completed running order the command line writes out reads back as a RunningOrder that is still completed',
+                               'impl': {k_: v_ for k_, v_ in r.items() if k_ != 'tree'}})
     root = tempfile.mkdtemp(prefix='mrm-c07-cli-')
     try:
         for name, (text, _) in docs.items():
@@ -183,6 +217,38 @@ def detect_completed_check(oc, pid='C07'):
                                        'spec': 'a completed running order written out is reported as "RunningOrder (completed)" by the command line, an open one without the marker',
                                        'impl': {'stdout': so[:800], 'stderr': se[:300], 'returned': str(rv)}, 'expected': exp})
     finally:
+        shutil.rmtree(root, ignore_errors=True)
+
+
+def cli_merge_tree(docs, to_file, extra=()):
+    """`mosromgr merge -f <docs as files> [-o out]` in-process -> the tree read back from what was written, or {'status': …}.
+    The -o target exists already and is longer than anything that will be written."""
+    from . import impl
+    root = tempfile.mkdtemp(prefix='mrm-cli-route-')
+    cwd0 = os.getcwd()
+    try:
+        paths = []
+        for i, t in enumerate(docs):
+            p = os.path.join(root, f'd{i:02d}.mos.xml')
+            with open(p, 'wb') as f:
+                f.write(coll_family.doc_bytes(t))
+            paths.append(p)
+        outp = os.path.join(root, 'out.xml')
+        if to_file:
+            with open(outp, 'w', encoding='utf-8') as f:
+                f.write('<mos><old>' + 'previous, longer content ' * 2000 + '</old></mos>\n')
+        so, se, rv = run_cli(['merge'] + list(extra) + ['-f'] + paths + (['-o', outp] if to_file else []))
+        if rv not in (None, 0):
+            return {'status': rv, 'stderr': se[-300:]}
+        try:
+            with warnings.catch_warnings():
+                warnings.simplefilter('ignore')
+                back = impl.MosFile.from_file(outp) if to_file else impl.MosFile.from_string(so)
+            return {'tree': TJ.to_tree(back.xml), 'cls': type(back).__name__, 'completed': bool(back.completed)}
+        except Exception as e:  # noqa: BLE001
+            return {'unreadable': impl.err_name(e)}
+    finally:
+        os.chdir(cwd0)
         shutil.rmtree(root, ignore_errors=True)
 
 
@@ -225,7 +291,9 @@ def listing_cases(tier):
     keysets = [[], ['a/1.mos.xml'], ['a/1.mos.xml', 'a/2.txt'], ['a/x.mos.xml', 'a/y.mos.xml', 'a/z.json'],
                ['a/only.txt'], ['a/deep/3.mos.xml', 'a/.mos.xml', 'a/4.mos.xmlx'],
                ['a/UPPER.MOS.XML', 'a/lower.mos.xml', 'a/Mixed.Mos.Xml', 'a/note.TXT'],
-               ['a/near-mos.xml', 'a/near.mos_xml', 'a/near.mosaxml', 'a/nearxmos.xml', 'a/real.mos.xml', 'a/x.mos.xml.bak', 'a/y.txt+']]
+               ['a/near-mos.xml', 'a/near.mos_xml', 'a/near.mosaxml', 'a/nearxmos.xml', 'a/real.mos.xml', 'a/x.mos.xml.bak', 'a/y.txt+'],
+               # names that begin with a dot, names with blanks, commas and brackets: a key is a string that ends with the suffix or not
+               ['a/dot/.mos.xml', 'a/dot/.1001.mos.xml', 'a/.hidden/x.mos.xml', '.mos.xml', 'a/Fri, 01 Jan/n 1.mos.xml', 'a/roCreate[1].mos.xml']]
     out = []
     maxp = 3 if tier == 'quick' else 4
     for npages in range(0, maxp + 1):
@@ -346,6 +414,11 @@ def run_c18(tier, seed):
     coll_lists.append(('an unknown MOS message among the documents', [t_ro, '<mos><mosID>m</mosID><messageID>4</messageID><heartbeat><time>now</time></heartbeat></mos>', t1]))
     coll_lists.append(('a non-XML document among the documents', [t_ro, t1, 'this is not xml <']))
     coll_lists.append(('no roDelete, allow_incomplete', [t_ro, t1, TJ.to_text(B.ready_to_air(message_id='7'))]))
+    coll_lists.append(('carriage returns as character references', [t_ro, TJ.to_text(B.story_append([B.story('CR', [B.p('line one' + gen_hist.CR + 'line two')])], message_id='5')).replace(gen_hist.CR, '&#13;'),
+                                                                 TJ.to_text(B.story_send('CR', [B.p('a' + gen_hist.CR), B.item('i')], message_id='6')).replace(gen_hist.CR, '&#13;')]))
+    nsd = lambda t: t.replace('<mos>', '<mos xmlns="urn:example:mos">', 1)
+    coll_lists.append(('documents in a default namespace', [nsd(t_ro), nsd(t1), nsd(t2)]))
+    coll_lists.append(('one message in a default namespace', [t_ro, nsd(t1), t2]))
     for label, docs in coll_lists:
         h = {'docs': docs, 'seed': label}
         for allow in (True, False):
@@ -611,13 +684,17 @@ def run_c19(tier, seed):
         # the same commands over a (fake) S3 bucket: -b/-p/-s/-k
         s3_names = [n for n in sorted(pool) if pool[n][0] in ('xml', 'notxml')]
         s3_objects = {'pfx/' + n: pool[n][1].encode('utf-8') for n in s3_names}
+        # (key names with commas and blanks: a key is one string, however it reads)
+        for odd in ('Fri, 01 Jan 2021/ro, final.mos.xml', 'Nyhetsmorgon, TV4/a b.mos.xml'):
+            s3_objects['pfx/' + odd] = pool['ro.mos.xml'][1].encode('utf-8')
+            pool['' + odd] = pool['ro.mos.xml']
         s3_jobs = []
         for suffix in (None, '.mos.xml', '.xml', '.txt'):
             eff = suffix or '.mos.xml'
             keys = [k for k in sorted(s3_objects) if k.endswith(eff)]
             for cmd in ('detect', 'inspect'):
                 s3_jobs.append((cmd, keys, ['-b', 'bucket', '-p', 'pfx/'] + (['-s', suffix] if suffix else [])))
-        for k in list(sorted(s3_objects))[:: max(1, len(s3_objects) // 12)]:
+        for k in list(sorted(s3_objects))[:: max(1, len(s3_objects) // 12)] + [k_ for k_ in s3_objects if ',' in k_]:
             s3_jobs.append(('detect', [k], ['-b', 'bucket', '-k', k]))
             s3_jobs.append(('inspect', [k], ['-b', 'bucket', '-k', k]))
         reqs = []
@@ -678,6 +755,14 @@ def run_c19(tier, seed):
                     coll_family.install_fake_s3(coll_family.FakeS3(objs, page_size=3))
                     so, se, rv = run_cli(['merge', '-b', 'bucket', '-p', 'coll/', '-s', '.xml'] + (['-i'] if inc else []) + (['-n'] if ns else []))
                     status = 0 if rv is None else rv
+                    # the prefix is a string prefix of the keys, not a folder: one that ends inside the names lists the same keys
+                    coll_family.install_fake_s3(coll_family.FakeS3(objs, page_size=3))
+                    sp, ep, rp = run_cli(['merge', '--bucket-name=bucket', '--prefix=coll/0', '-s', '.xml'] + (['-i'] if inc else []) + (['-n'] if ns else []))
+                    if (sp, 0 if rp is None else rp) != (so, status) and all(k.startswith('coll/0') for k in objs):
+                        oc.failing.append({'kind': 'cli-s3', 'cmd': 'merge', 'argv': ['--bucket-name=bucket', '--prefix=coll/0'], 'keys': sorted(objs),
+                                           'label': f'merge over S3 with a prefix that ends inside the key names incomplete={inc} non_strict={ns}',
+                                           'spec': 'the prefix selects the keys that start with it (it need not end in a slash)',
+                                           'impl': {'prefix coll/0': {'status': rp, 'stdout': sp[:300], 'stderr': ep[:300]}, 'prefix coll/': {'status': status, 'stdout': so[:300]}}})
                     sf, ef, rf = run_cli(['merge', '-f'] + paths + (['-i'] if inc else []) + (['-n'] if ns else []))
                     oc.evaluations += 1
                     oc.in_domain += 1
